@@ -52,8 +52,46 @@ DEC_FN = {"std_string": "output_to_std_string", "std_wstring": "output_to_std_ws
 PER_CHUNK = 40000
 
 
-def build():
-    return vlib.build_harness("c15_codec", ["c15_codec.cpp"], libs=("core",))
+def _harness_compile_error(e):
+    """the text of a compile error of the harness translation unit itself, else None (library / link failure)"""
+    msg = str(e)
+    if msg.startswith("compile failed") and "c15_codec.cpp" in msg.split("\n", 1)[0]:
+        return msg
+    return None
+
+
+def build(ctx=None):
+    """Round 3 (Clarification 2, compile failures): when the harness no longer compiles against the tree under test
+    although the library itself builds, the in-scope part is built alone (-DC15_NO_OBSERVED: without the observed-only
+    extension and its headers) and the failure is an observation.  When the in-scope part does not compile either, an API
+    the statement names rejects well-formed arguments the harness used to pass: VIOLATION C15:<unit>:does-not-compile."""
+    try:
+        return vlib.build_harness("c15_codec", ["c15_codec.cpp"], libs=("core",))
+    except vlib.Infra as e:
+        err = _harness_compile_error(e)
+        if err is None or ctx is None:
+            raise
+    first = next((l for l in err.splitlines() if " error" in l), err.splitlines()[-1] if err else "")
+    try:
+        b = vlib.build_harness("c15_codec", ["c15_codec.cpp"], libs=("core",), defs=("C15_NO_OBSERVED",))
+    except vlib.Infra as e2:
+        err2 = _harness_compile_error(e2)
+        if err2 is None:
+            raise
+        errs = [l for l in err2.splitlines() if " error" in l or "required from" in l or "static assertion" in l]
+        blob = "\n".join(errs)
+        m = re.search(r"include/fcppt/([\w/]+)\.hpp:\d+:\d+: error", blob) or re.search(r"include/fcppt/([\w/]+)\.hpp:\d+", blob)
+        n = re.search(r"fcppt::((?:\w+::)*\w+)", blob)
+        unit = (m.group(1).replace("/", "_") if m else (n.group(1).replace("::", "_") if n else "harness"))
+        ctx.reject("C15:%s:does-not-compile" % unit,
+                   "the in-scope part of the conformance harness (calls of the functions named by the statement, with arguments "
+                   "that compile on the unchanged tree) no longer compiles against this tree: %s" % " | ".join(errs[:6])[:1500],
+                   {"records": [], "compiler": errs[:20]})
+        return None
+    obs = ctx.extra.setdefault("observations", {})
+    obs["observed-only-part:does-not-compile"] = {"count": 1, "sample": first[:500]}
+    vlib.log("the observed-only part of the harness does not compile against this tree (observation); in-scope part built alone")
+    return b
 
 
 def group_of(line):
@@ -153,7 +191,10 @@ def function_names(rec, why):
     if f == "utf8":
         out = []
         nr = sorted(w for w in why if w.startswith("narrow"))
-        wr = sorted(w for w in why if not w.startswith("narrow"))
+        sr = sorted(w for w in why if w in ("from_std_string", "to_std_string"))
+        wr = sorted(w for w in why if not w.startswith("narrow") and w not in sr)
+        for w in sr:
+            out.append((w + ("_locale" if rec["api"] == "fcppt_locale" else ""), ["bytes-changed"], ""))
         # all four narrowing (widening) entry points forward to narrow_locale (widen_locale); the one
         # that was called is named in the text of the finding
         if nr:
@@ -194,26 +235,59 @@ def observe(ctx, rec, why, line):
     o["count"] += 1
 
 
+# record kinds inside the statement of C15 (must agree with InScopeKinds of spec/CodecJudge.tla); a crash /
+# hang / sanitizer report inside a call of any other kind is an OBSERVATION, never a VIOLATION
+IN_SCOPE_KINDS = ("io", "io_read", "swap", "dec", "dec_loc", "dec_over", "enum", "enum_from", "vec", "vecseq", "utf8")
+CRASH_FN = {"io": "io_write_read", "swap": "endianness_swap", "dec": "output_to_string/extract_from_string",
+            "dec_loc": "output_to_string_locale/extract_from_string_locale", "dec_over": "extract_from_string",
+            "enum": "enum_string", "enum_from": "enum_string", "vecseq": "vector_dim_io_sequence"}
+
+
+def crash_verdict(ctx, what, rc, out, tail):
+    """a harness run that did not exit 0: the partial line names the driven call"""
+    kind = {66: "sanitizer", 67: "crash", 68: "hang", 124: "timeout"}.get(rc, "exit%d" % rc)
+    # a sanitizer report whose innermost frame is harness code is a harness bug, not a finding
+    fr = re.search(r"#0 0x[0-9a-f]+ in [^\n]*? (/\S+?):\d+", out)
+    if rc == 66 and fr and fr.group(1).startswith(vlib.HARNESS):
+        raise vlib.Infra("sanitizer report inside the harness itself: %s" % out[-1500:])
+    if rc == 3:
+        raise vlib.Infra("harness failed (rc=%d): %s" % (rc, out[-2000:]))
+    m = re.search(r'"f":"(\w+)"', tail or "")
+    op = m.group(1) if m else "?"
+    san = re.search(r"(ERROR: \w+Sanitizer: [^\n]*|runtime error: [^\n]*)", out)
+    text = "%s inside a driven call (%s): %s; partial record: %s" % (kind, what, san.group(1) if san else out[-300:], (tail or "")[:300])
+    rec = None
+    if tail:
+        # the partial line carries the complete inputs of the call: replayable
+        try:
+            rec = json.loads(re.sub(r",\s*$", "", tail) + "}")
+        except ValueError:
+            rec = None
+    if m and op not in IN_SCOPE_KINDS:
+        obs = ctx.extra.setdefault("observations", {})
+        o = obs.setdefault("%s:%s" % (op, kind), {"count": 0, "sample": text[:500]})
+        o["count"] += 1
+        return
+    fn = CRASH_FN.get(op, op)
+    if op == "utf8":
+        fn = "narrow_widen_locale"
+    elif op == "vec" and rec:
+        fn = "%s_io" % rec.get("k", "vector")
+    ctx.reject("C15:%s:%s" % (fn, kind), text, {"records": [rec] if rec else [], "partial_line": tail})
+
+
 def judge_file(ctx, path, what, rc, out, count=True):
     lines, tail = vlib.check_trace_file(path)
     if rc != 0:
-        kind = {66: "sanitizer", 67: "crash", 68: "hang", 124: "timeout"}.get(rc, "exit%d" % rc)
-        # a sanitizer report whose innermost frame is harness code is a harness bug, not a finding
-        fr = re.search(r"#0 0x[0-9a-f]+ in [^\n]*? (/\S+?):\d+", out)
-        if rc == 66 and fr and fr.group(1).startswith(vlib.HARNESS):
-            raise vlib.Infra("sanitizer report inside the harness itself: %s" % out[-1500:])
-        m = re.search(r'"f":"(\w+)"', tail or "")
-        op = m.group(1) if m else "?"
-        if rc == 3 or (tail is None and not lines):
-            raise vlib.Infra("harness failed (rc=%d): %s" % (rc, out[-2000:]))
-        san = re.search(r"(ERROR: \w+Sanitizer: [^\n]*|runtime error: [^\n]*)", out)
-        ctx.reject("C15:%s:%s" % (op, kind), "%s inside a driven call (%s): %s; partial record: %s" % (
-            kind, what, san.group(1) if san else out[-300:], (tail or "")[:300]), {"records": [], "partial_line": tail})
-        # the crash handler of the harness appends a {"e":"crash"} line: not a call record
+        crash_verdict(ctx, what, rc, out, tail)
+    # the crash handler of the harness appends a {"e":"crash"} line: not a call record
+    if rc != 0 or any(l.startswith('{"e":"crash"') for l in lines[-3:]):
         lines = [l for l in lines if not l.startswith('{"e":"crash"')]
         with open(path, "w") as f:
             f.write("\n".join(lines) + ("\n" if lines else ""))
     if not lines:
+        if rc != 0:
+            return 0    # the process died inside its first call: the verdict above is all there is
         raise vlib.Infra("harness produced no records: %s" % out[-1000:])
     del lines
     files, counts = split_groups(ctx, path)
@@ -252,6 +326,58 @@ def judge_file(ctx, path, what, rc, out, count=True):
     return total
 
 
+def sensitivity_guard_round3(ctx, tpath):
+    """vacuity guard of the judge clauses added in round 3 (several enumerators on one stream, from_std_string /
+    to_std_string, the empty string, swap of floating-point values): corrupted copies of real, explained records
+    must be rejected with the expected reason (exit 2 otherwise)"""
+    want = {}
+    with open(tpath) as f:
+        for l in f:
+            if len(want) == 4:
+                break
+            if l.startswith('{"f":"enum","E":"E9"') and "enum" not in want and '"i":0' not in l[:30]:
+                want["enum"] = json.loads(l)
+            elif '"fsb"' in l and "fstr" not in want:
+                r = json.loads(l)
+                if len(r["gb"]) > 3 and r["tsok"]:
+                    want["fstr"] = r
+            elif l.startswith('{"f":"utf8"') and '"w":[],' in l[:60] and "empty" not in want:
+                want["empty"] = json.loads(l)
+            elif l.startswith('{"f":"swap","T":"double"') and "fswap" not in want:
+                r = json.loads(l)
+                if r["d"] != r["d"][::-1]:
+                    want["fswap"] = r
+    if len(want) < 4:
+        raise vlib.Infra("sensitivity guard (round 3): no candidate record for %s" % sorted(set(("enum", "fstr", "empty", "fswap")) - set(want)))
+
+    def cp(r):
+        return json.loads(json.dumps(r))
+    cor = []
+    a = cp(want["enum"]); a["sq"][1] = []; cor.append((a, "input-sequence"))
+    a = cp(want["enum"]); a["wsq"][2] = [0]; cor.append((a, "winput-sequence"))
+    a = cp(want["enum"]); a["sqt"] = a["sqt"].replace("  ", " "); cor.append((a, "output-sequence"))
+    a = cp(want["enum"]); a["wsqt"] = a["wsqt"][1:]; cor.append((a, "woutput-sequence"))
+    a = cp(want["fstr"]); a["fsb"] = a["fsb"][:-1]; cor.append((a, "from_std_string"))
+    a = cp(want["fstr"]); a["tsb"] = a["tsb"][:-1]; cor.append((a, "to_std_string"))
+    a = cp(want["fstr"]); a["tsok"] = False; a["tsb"] = []; cor.append((a, "to_std_string"))
+    a = cp(want["empty"]); a["nok"] = False; cor.append((a, "narrow-failed"))
+    a = cp(want["fswap"]); a["s1"] = a["d"]; cor.append((a, "swap-bytes"))
+    a = cp(want["fswap"]); a["s2"] = a["s1"]; cor.append((a, "swap-twice"))
+    p = os.path.join(ctx.workdir, "corrupted_r3.ndjson")
+    vlib.write_ndjson(p, [c[0] for c in cor])
+    r = vlib.tlc("CodecJudge", "CodecJudge.cfg", workers=1, env={"TRACE": p}, timeout=600, tag="CodecJudge_guard_r3", xmx="1500m")
+    v = vlib._verdict_lines(r.out)
+    if "VERDICT" not in v:
+        raise vlib.Infra("sensitivity guard (round 3): no verdict (rc=%d): %s" % (r.rc, r.out[-1500:]))
+    got = {b["l"]: b["why"] for b in v["VERDICT"][-1]["bad"]}
+    for i, (rec, why) in enumerate(cor):
+        if why not in got.get(i + 1, []):
+            raise vlib.Infra("sensitivity guard (round 3): corrupted record %d not rejected with %s (judged %s): %s" % (
+                i + 1, why, got.get(i + 1), json.dumps(rec)[:300]))
+    ctx.extra["judge_sensitivity_round3"] = {"corrupted_records": len(cor), "all_rejected_with_expected_reason": True}
+    os.unlink(p)
+
+
 def model_checks(ctx, thorough):
     cfgs = ["MC_Codec_bytes.cfg", "MC_Codec_utf8_all.cfg" if thorough else "MC_Codec_utf8.cfg", "MC_Codec_dec.cfg", "MC_Codec_vecseq.cfg"]
     vlib.parallel(lambda c: vlib.tlc_mc(ctx, "MCCodec", c, workers=4, timeout=3000, tag="MCCodec_" + c, xmx="2g"), cfgs)
@@ -276,11 +402,47 @@ def model_checks(ctx, thorough):
 def run(ctx):
     thorough = ctx.tier == "thorough"
     model_checks(ctx, thorough)
-    binary = build()
+    binary = build(ctx)
+    if binary is None:
+        ctx.rule = "the conformance harness does not compile against this tree"
+        return
     tpath = os.path.join(ctx.workdir, "recorded.ndjson")
-    rc, out = vlib.run_harness(binary, ["record", tpath, ctx.seed, ctx.tier], timeout=3000)
+    # the enumeration is cut into sections (see the harness): after a crash / hang inside one section the
+    # harness is restarted behind it, so that the other record kinds are still driven and judged
+    start, rc, out, parts = 0, 0, "", []
+    for attempt in range(12):
+        part = tpath if attempt == 0 else "%s.part%d" % (tpath, attempt)
+        rc_k, out_k = vlib.run_harness(binary, ["record", part, ctx.seed, ctx.tier, start], timeout=3000 if thorough else 900)
+        parts.append(part)
+        if rc_k == 0:
+            break
+        try:
+            sec = int(open(part + ".sec").read().strip())
+        except (OSError, ValueError):
+            sec = None
+        if attempt == 0:
+            rc, out = rc_k, out_k
+        else:
+            # a later part died as well: its own verdict; its complete records are appended below
+            _, tail_k = vlib.check_trace_file(part)
+            crash_verdict(ctx, "recorded call", rc_k, out_k, tail_k)
+        if sec is None or rc_k == 3:
+            break
+        start = sec + 1
+    if len(parts) > 1:
+        _, tail0 = vlib.check_trace_file(tpath)
+        with open(tpath, "a") as f:
+            if tail0:
+                f.write("\n")
+            for part in parts[1:]:
+                ls, _ = vlib.check_trace_file(part)
+                f.write("".join(l + "\n" for l in ls if not l.startswith('{"e":"crash"')))
+                os.unlink(part)
+        ctx.extra["harness_restarts"] = len(parts) - 1
     n = judge_file(ctx, tpath, "recorded call", rc, out)
     ctx.traces_validated += len(ctx.extra.get("records_per_group", {}))
+    if rc == 0 and not ctx.violations:
+        sensitivity_guard_round3(ctx, tpath)
     with open(tpath) as f:
         for i, l in enumerate(f):
             if i in (5, 400000) or '"f":"vec"' in l and len(ctx.samples) < 3:
